@@ -782,3 +782,26 @@ def path_conditions(prog, fn, bb, limit=400):
                 lits.append(('switch', e, tuple(sorted(map(str, vals)))))
         out.append(lits)
     return out
+
+
+def feasible_conj(lits):
+    """False if the conjunction contains two literals that cannot hold together: `e is A` and
+    `e is B` with A ∩ B = ∅ (enum variants are exclusive), or e and !e."""
+    by = {}
+    pos, negs = [], []
+    for l in lits:
+        if isinstance(l, tuple) and l and l[0] == 'is':
+            k = repr(l[1])
+            by[k] = (by[k] & set(l[2])) if k in by else set(l[2])
+            if not by[k]:
+                return False
+        elif isinstance(l, tuple) and l and l[0] == 'un' and l[1] == 'Not':
+            negs.append(repr(l[2]))
+        else:
+            pos.append(repr(l))
+    return not (set(pos) & set(negs))
+
+
+def feasible_path_conditions(prog, fn, bb, limit=400):
+    d = path_conditions(prog, fn, bb, limit)
+    return None if d is None else [c for c in d if feasible_conj(c)]
